@@ -19,7 +19,7 @@ func TestMain(m *testing.M) {
 	evid.Tests(
 		evid.Spec{Name: "TestReplay", Kind: "plain", QuickShards: 1, ThoroughShards: 1},
 		evid.Spec{Name: "TestExhaustivePairs", Kind: "plain", QuickShards: 16, ThoroughShards: 16, TimeoutS: 3000},
-		evid.Spec{Name: "TestPropLCSRandom", Kind: "rapid", Quick: 64000, Thorough: 800000, QuickShards: 8, ThoroughShards: 16},
+		evid.Spec{Name: "TestPropLCSRandom", Kind: "rapid", Quick: 40000, Thorough: 800000, QuickShards: 8, ThoroughShards: 16},
 		evid.Spec{Name: "TestPropD1Random", Kind: "rapid", Quick: 64000, Thorough: 800000, QuickShards: 8, ThoroughShards: 16},
 		evid.Spec{Name: "FuzzLCS", Kind: "fuzz", Thorough: 90, ThoroughOnly: true, QuickShards: 1, ThoroughShards: 1},
 		evid.Spec{Name: "TestPropConcurrentCalls", Kind: "rapid", Quick: 1600, Thorough: 40000, QuickShards: 8, ThoroughShards: 16},
@@ -343,9 +343,20 @@ func classesOf(c lcsCase, diff int) []string {
 
 func TestPropLCSRandom(t *testing.T) {
 	rapid.Check(t, func(rt *rapid.T) {
-		c := genPair(rt, 300)
+		maxLen := 300
+		if rapid.IntRange(0, 199).Draw(rt, "long") == 0 {
+			maxLen = 2000 // full-length markers / mitochondrial fragments; the band stays narrow, the oracle is O(nm)
+		}
+		c := genPair(rt, maxLen)
+		if maxLen > 300 && c.Bound < 0 {
+			c.Bound = 10
+		}
 		nt, diff := lcsNontrivial(c)
-		evid.Eval("lcs", evid.Hash(c.A, c.B, c.Bound), nt, c, classesOf(c, diff)...)
+		cl := classesOf(c, diff)
+		if len(c.A) > 1000 || len(c.B) > 1000 {
+			cl = append(cl, "longer_than_1000")
+		}
+		evid.Eval("lcs", evid.Hash(c.A, c.B, c.Bound), nt, c, cl...)
 		if err := checkLCS(c); err != nil {
 			evid.Fail(rt, "lcs", c, err)
 		}
